@@ -51,6 +51,15 @@ Theorem C14_parity_all_cancel : ∀ v l, cancel_pairs l = [] → par v l = false
 Proof. exact parity_all_cancel. Qed.
 Print Assumptions C14_parity_all_cancel.
 
+(* the exhaustive-evaluation oracle of Run_C14.holds decides the functional clause: when it says true (and its side checks --
+   at most 8 free nodes, acyclic, closed -- hold) then ALL consistent valuations of the two circuits that agree on the free nodes
+   agree on every output and blackbox input pin *)
+Theorem C14_same_function_sound : ∀ Cf Cl, same_function Cf Cl = true → same_function_decided Cf Cl = true →
+  ∀ vf vl, consistent (c_g Cf) vf → consistent (c_g Cl) vl → agrees (free_nodes (c_g Cf)) vf vl →
+    agrees (endpoints (c_g Cf)) vf vl.
+Proof. exact same_function_sound. Qed.
+Print Assumptions C14_same_function_sound.
+
 (* non-vacuity: a concrete AST inside the subset (keyword inside an identifier, nets called tie0 / tie_0, leading underscore,
    constants at a gate, a pin and an assign, equal operands of a parity gate, unconnected and omitted pins, use before
    definition) on which the agreement holds *)
@@ -65,5 +74,10 @@ Definition ex_ast : ast :=
                   IAssign "tie0" (OConst "1'b0") ] |}.
 Example C14_subset_inhabited : in_subset ex_ast ex_bbs = true ∧ agreement ex_ast ex_bbs.
 Proof. split; [vm_compute; reflexivity|]. apply agreementb_spec. vm_compute. reflexivity. Qed.
+Example C14_same_function_nonvacuous :
+  match fast_sem ex_ast ex_bbs, full_sem ex_ast ex_bbs with
+  | Ok Cf, Ok Cl => same_function Cf Cl && same_function_decided Cf Cl && negb (bool_decide (c_g Cf = c_g Cl))
+  | _, _ => false end = true.
+Proof. vm_compute. reflexivity. Qed.
 Example C14_parity_nonvacuous : is_parity Xnor = true ∧ cancel_pairs ["a"; "b"; "a"; "c"; "b"; "b"] = ["c"; "b"].
 Proof. split; vm_compute; reflexivity. Qed.
